@@ -171,6 +171,10 @@ def diff_streams(lines, answers):
         if a == 'bad-op':
             fails.append(dict(kind='protocol', line_no=i, case_start=case_start, op=l, impl='', model='bad-op', spec=''))
             continue
+        why = ''
+        mw = re.match(r'^(.*) w=(\S+)$', a)
+        if mw:
+            a, why = mw.group(1), mw.group(2)
         m = re.match(r'^m=(.*?) s=(.*)$', a)
         if not m:
             fails.append(dict(kind='protocol', line_no=i, case_start=case_start, op=l, impl='', model=a, spec=''))
@@ -185,12 +189,12 @@ def diff_streams(lines, answers):
             violated_cases.add(case_start)
             # a property-level violation supersedes an earlier drift in the same case
             fails[:] = [f for f in fails if not (f['kind'] == 'drift' and f['case_start'] == case_start)]
-            fails.append(dict(kind='violation', line_no=i, case_start=case_start, op=op, impl=impl, model=model, spec=spec))
+            fails.append(dict(kind='violation', line_no=i, case_start=case_start, op=op, impl=impl, model=model, spec=spec, why=why))
         elif impl != model:
             if case_start in failed_cases or case_start in violated_cases:
                 continue
             failed_cases.add(case_start)
-            fails.append(dict(kind='drift', line_no=i, case_start=case_start, op=op, impl=impl, model=model, spec=spec))
+            fails.append(dict(kind='drift', line_no=i, case_start=case_start, op=op, impl=impl, model=model, spec=spec, why=why))
     return fails
 
 
@@ -216,6 +220,8 @@ def match_known(pid, fail, case_lines, known):
         if 'impl' in sig and not re.search(sig['impl'], fail['impl']):
             ok = False
         if 'spec' in sig and not re.search(sig['spec'], fail['spec']):
+            ok = False
+        if 'why' in sig and sig['why'] != fail.get('why', ''):
             ok = False
         for rq in sig.get('requires', []):
             if not re.search(rq, txt, flags=re.M):
@@ -370,7 +376,7 @@ def check(pid, tier, seed, replay=None):
                         continue
                     reported += 1
                     payload = dict(kind=f['kind'], property=pid, domain=domain, seed=s, tier=tier,
-                                   failing_op=f['op'], impl=f['impl'], model=f['model'], spec=f['spec'],
+                                   failing_op=f['op'], impl=f['impl'], model=f['model'], spec=f['spec'], why=f.get('why', ''),
                                    case=cl, replay=f'./check {pid} --tier {tier} --seed {s}')
                     path = write_replay(pid, payload)
                     if f['kind'] == 'violation':
